@@ -68,11 +68,13 @@ ALL_TYPES = ["AesGcm", "AesCtrHmac", "AesGcmSiv", "ChaCha20Poly1305", "XChaCha20
 
 
 def kp_signature(m):
+    """call site (key type, params | key kind) + what failed + input class (parameters the proto format can / cannot carry)"""
     e = m["event"]
     what = m["bad"][0]
-    if len(m["bad"]) > 1 and "/" in str(m["bad"][1]):
-        return "protoserialization/%s %s [%s]" % (e["kt"], what, m["bad"][1].split("/")[0])
-    return "protoserialization/%s %s" % (e["kt"], what)
+    cls = "representable" if e.get("rep", True) else "not representable in the proto format"
+    if e["ev"] == "keys" and len(m["bad"]) > 1:
+        return "protoserialization/%s %s key: %s [%s]" % (e["kt"], m["bad"][1], what, cls)
+    return "protoserialization/%s parameters: %s [%s]" % (e["kt"], what, cls)
 
 
 def handle_mismatches(ctx, mism, sig, slim=None):
@@ -90,19 +92,29 @@ def handle_mismatches(ctx, mism, sig, slim=None):
 
 def slim_kp(e):
     e = dict(e)
-    e["keys"] = [k for k in e.get("keys", [])][:2]
+    if "keys" in e:
+        e["keys"] = e["keys"][:2]
     return e
 
 
 def corrupt_kp(ev, rng):
-    if not ev.get("accepted") or not ev["tpl"]["ser"] or not ev["tpl"]["equal"]:
-        return None
     ev = json.loads(json.dumps(ev))
     c = rng.randrange(4)
+    if ev["ev"] == "params":
+        if not ev.get("accepted") or not ev["tpl"]["ser"] or not ev["tpl"]["equal"]:
+            return None
+        if c < 2:
+            ev["tpl"]["equal"] = False
+            ev["_corrupted"] = "tpl.equal"
+        else:
+            ev["tpl"]["prefix"] = ev["tpl"]["prefix2"] = "LEGACY" if ev["tpl"]["prefix"] != "LEGACY" else "TINK"
+            ev["_corrupted"] = "tpl.prefix"
+        return ev
     ks = [k for k in ev["keys"] if k["built"] and k["ser"] and k["equal"]]
-    if c == 0:
-        ev["tpl"]["equal"] = False
-        ev["_corrupted"] = "tpl.equal"
+    if c == 0 and ks:
+        k = ks[rng.randrange(len(ks))]
+        k["idreq"] = k["idreq2"] = "0badc0de"
+        ev["_corrupted"] = "keys.idreq"
     elif c == 1 and ks:
         k = ks[rng.randrange(len(ks))]
         k["value2"] = ("00" if not k["value2"].startswith("00") else "01") + k["value2"][2:]
@@ -123,7 +135,7 @@ def corrupt_kp(ev, rng):
 def stage_kp(ctx, drv):
     if ctx.replay:
         obj = json.load(open(ctx.replay))
-        if obj.get("event", {}).get("ev") != "kp":
+        if obj.get("event", {}).get("ev") not in ("params", "keys"):
             return False
         tr = os.path.join(ctx.scratch, "replay-kp.ndjson")
         ctx.run([drv, "-mode", "kp", "-replay", ctx.replay, "-out", tr])
@@ -137,39 +149,27 @@ def stage_kp(ctx, drv):
     ctx.log("driver: %d parameter records executed in %.1fs" % (n, r.wall))
     # records the proto format cannot carry are validated apart: every one of them may disagree in the same way,
     # and one replay per signature is enough
-    rep = os.path.join(ctx.scratch, "kp-rep.ndjson")
-    nonrep = {}
     nacc = nkeys = 0
-    with open(rep, "w") as a:
-        for line in open(tr):
-            e = json.loads(line)
-            nacc += e["accepted"]
-            nkeys += sum(1 for k in e["keys"] if k["built"])
-            if e.get("rep", True):
-                a.write(line)
-            else:
-                nonrep.setdefault(e["kt"], []).append(line)
-    mism, n1 = ctx.validate_events("Trace_KeyParams", rep, shards=16, stage="T:key/parameter round trips")
+    for line in open(tr):
+        e = json.loads(line)
+        nacc += e.get("accepted", False)
+        nkeys += sum(1 for k in e.get("keys", []) if k["built"])
+    mism, n1 = ctx.validate_events("Trace_KeyParams", tr, shards=16, stage="T:key/parameter round trips")
     handle_mismatches(ctx, mism, kp_signature, slim_kp)
     n2 = 0
-
-    def nonrep_work(kt):
-        p = os.path.join(ctx.scratch, "kp-nonrep-%s.ndjson" % kt)
-        open(p, "w").write("".join(nonrep[kt]))
-        return ctx.validate_events("Trace_KeyParams", p, shards=1, max_findings=1,
-                                   stage="T:parameters the proto format cannot carry (%s)" % kt)
-
-    with cf.ThreadPoolExecutor(max_workers=8) as ex:
-        for mism2, k in ex.map(nonrep_work, sorted(nonrep)):
-            n2 += k
-            handle_mismatches(ctx, mism2, kp_signature, slim_kp)
     ctx.stage("R:key/parameter round trips", records=n, accepted_by_constructor=nacc, keys_built=nkeys)
     ctx.cov["traces_validated_against_impl"] += n1 + n2
-    lines = open(rep).read().splitlines()
+    lines = open(tr).read().splitlines()
     for k in (len(lines) // 3, 2 * len(lines) // 3):
         ctx.sample(slim_kp(json.loads(lines[k])))
-    if not mism:
-        ctx.negative_control("Trace_KeyParams", rep, corrupt_kp, window=60, stage="NC:Trace_KeyParams")
+    # negative control on the events of the key types without any disagreement
+    dirty = {m["event"]["kt"] for m in mism}
+    clean = os.path.join(ctx.scratch, "kp-clean.ndjson")
+    with open(clean, "w") as f:
+        for x in lines:
+            if json.loads(x)["kt"] not in dirty:
+                f.write(x + "\n")
+    ctx.negative_control("Trace_KeyParams", clean, corrupt_kp, window=60, stage="NC:Trace_KeyParams")
     return True
 
 
